@@ -15,7 +15,7 @@ PROP = 'C09'
 LEVEL = 'exploration'
 CLASSES = ['tiny', 'no_control', 'no_treatment', 'all_excluded', 'empty_admitted', 'size_beyond',
            'ratio_unsat', 'share_budget_impossible', 'n_geos_max_2', 'long_test', 'window_exact',
-           'hostile_matrix', 'iroas_zero', 'fixed_overflow', 'random']
+           'hostile_matrix', 'iroas_zero', 'fixed_overflow', 'integral_floats', 'random']
 RULE = ('Each case draws one hostile input class (%s), builds fresh data / parameter / matched-markets '
         'objects and runs exhaustive_search and greedy_search at the client boundary. Series are never '
         'constant and the analysis window always holds >= n_test + 3 points, so the property applies to '
@@ -104,6 +104,22 @@ def make_hostile(r, g, cls, tier):
     case['elig_rows'] = gen.gen_elig_rows(r, ids, 'hostile')
   elif cls == 'iroas_zero':
     kw['iroas'] = 0.0
+  elif cls == 'integral_floats':
+    # integer-valued floats are accepted by the parameter class (e.g. values read from JSON / pandas)
+    which = r.sample(['n_test', 'n_pretest_max', 'n_geos_max', 'n_designs', 'treatment_geos_range', 'control_geos_range'],
+                     r.randrange(1, 4))
+    for f in which:
+      if f == 'n_test':
+        kw['n_test'] = float(kw['n_test'])
+      elif f == 'n_pretest_max':
+        kw['n_pretest_max'] = float(kw.get('n_pretest_max', 90))
+      elif f == 'n_geos_max':
+        kw['n_geos_max'] = float(kw.get('n_geos_max', r.randrange(2, G + 2)))
+      elif f == 'n_designs':
+        kw['n_designs'] = float(kw['n_designs'])
+      else:
+        lo, hi = kw.get(f, (1, r.randrange(1, G + 1)))
+        kw[f] = (float(lo), float(hi))
   elif cls == 'fixed_overflow':
     case['elig_rows'] = rows_from([('t_fixed', 3), ('c_fixed', 3), ('ct', 2), ('ctx', 1)])
     kw['treatment_geos_range'] = (1, r.choice([1, 2]))
